@@ -83,6 +83,22 @@ PROPERTIES = {
         assumptions=["np.indices contract (index rows 0 <= m_c < n_c, each exactly once)", "floats as exact reals"],
         explanation="generic-row tracing of the real mesh generators; range/injectivity obligations on the traced polynomials discharged by z3",
     ),
+    "C03": dict(
+        engines="N",
+        claim="The real operators O, L, Linv, K, I, J, Idag, Jdag (through the real handle_k / handle_spin decorators) are executed on symbolic "
+              "matrices with SYMBOLIC dimensions (any grid, any cut-off sphere, any number of states): O = Omega, L = -Omega |G+k|^2 with the "
+              "right basis, Linv its pseudo-inverse with a zero G=0 component, K (1+|G+k|^2) = 1, J I = 1 / I J = 1 (full basis), "
+              "J(full=False) I = 1 (cut-off basis), exact adjoint laws for Idag / Jdag incl. full=False, and per-k / per-spin dispatch. "
+              "Plane-wave convention, index matrices and the translation operator are separate engine-A obligations (see evidence).",
+        note="the FFT is an assumed contract (DFT matrix, F Fbar = N, scipy's norm modes); gather/scatter on the cut-off sphere as S^H S = 1; "
+             "the symbolic Atoms state (Gk2, Gk2c, active, Omega) is the state contract of Atoms.build; in-house NC normaliser trusted (canary)",
+        modules=["contracts.c03"],
+        level="proof",
+        trusted_base=BASE_TRUST + ["in-house non-commutative normaliser (engine N)"],
+        assumptions=["scipy.fft.fftn/ifftn = multiplication by the DFT matrix with the documented norm scalings (assumed contract 'fft')",
+                     "floats as exact complex numbers"],
+        explanation="operator identities proved as equalities of normal forms in a typed non-commutative *-algebra",
+    ),
 }
 
 
